@@ -17,6 +17,11 @@ reference manual says.
 3. (B) seeded random larger programs (nested if / foreach, disablers flowing into every
    kind of call, copies of mutable objects, feature chains, richer paths) judged the same
    way; a sample of A and B also runs through the real ``meson setup --backend=none``.
+
+The model-checking runs go on in the background while the implementation is driven (their
+input spaces are exported first by bound-0 runs of the same models and compared at the
+end).  Debugging aids (not used by ./check): X04_ONLY=dis,feat,cfg,env,path,B restricts the
+bindings, X04_NOMC=1 skips the model-checking runs, X04_MAX_REPORTED=n lifts the report cap.
 """
 from __future__ import annotations
 
